@@ -85,13 +85,15 @@ class Tape:
 
 _HEX = re.compile(r"0x[0-9a-fA-F]+\??")
 _GOR = re.compile(r"goroutine \d+")
+_NUM = re.compile(r"\d{6,}")
 _PLUS = re.compile(r" \+0x[0-9a-fA-F]+")
 
 
 def norm_err(text):
     """stderr of a real binary, made repeatable: a Go panic prints addresses and goroutine ids that differ
     between two executions of the same scenario"""
-    return _GOR.sub("goroutine N", _HEX.sub("0x?", _PLUS.sub("", text)))
+    text = _GOR.sub("goroutine N", _HEX.sub("0x?", _PLUS.sub("", text)))
+    return _NUM.sub("N", text)  # random suffixes of temporary names (.staging/18001517), pids
 
 
 class Run:
